@@ -55,6 +55,33 @@ func c09Next(g *prog.Gen, idx int, hist []*prog.Step) *prog.Op {
 	case (n == 1 && !pre) || (n == 3 && pre):
 		return &prog.Op{Kind: "putVersioning", Caller: "root", B: b, On: true}
 	}
+	// every other program ends its random part with a fixed epilogue on one key: a null version, then a delete
+	// marker, then a new version, then the deletion of that new version by id — issued back to back, so that
+	// the archive copies are made within the same clock tick; the marker must be the one re-exposed
+	if idx%2 == 1 && n >= total && n < total+6 {
+		k := keys[0]
+		switch n - total {
+		case 0:
+			return &prog.Op{Kind: "putVersioning", Caller: "root", B: b, On: false}
+		case 1:
+			return &prog.Op{Kind: "putObject", Caller: "root", B: b, K: k, Put: g.PutSpec(), Valid: true}
+		case 2:
+			return &prog.Op{Kind: "putVersioning", Caller: "root", B: b, On: true}
+		case 3:
+			return &prog.Op{Kind: "deleteObject", Caller: "root", B: b, K: k}
+		case 4:
+			return &prog.Op{Kind: "putObject", Caller: "root", B: b, K: k, Put: &prog.PutSpec{Data: []prog.Seg{{Seed: 7700 + idx, Off: 0, Len: 5}}}, Valid: true}
+		case 5:
+			vs := c09KnownVids(hist)[k]
+			if len(vs) == 0 {
+				return &prog.Op{Kind: "listVersions", Caller: "root", B: b}
+			}
+			return &prog.Op{Kind: "deleteObject", Caller: "root", B: b, K: k, Vid: vs[len(vs)-1]}
+		}
+	}
+	if idx%2 == 1 {
+		total += 6
+	}
 	if n >= total {
 		if n == total {
 			return &prog.Op{Kind: "listVersions", Caller: "root", B: b}
@@ -110,6 +137,8 @@ func c09Next(g *prog.Gen, idx int, hist []*prog.Step) *prog.Op {
 			if vs := c09KnownVids(hist)[o.SK]; len(vs) > 0 {
 				o.SVid = vs[g.R.Intn(len(vs))]
 			}
+		} else if g.R.Chance(25) {
+			o.SVid = "null" // the null version, whether it is the current one or archived
 		}
 		return o
 	case r < 46:
